@@ -176,6 +176,10 @@ Proof.
   - lia.
 Qed.
 
+(* re-purposing changes nothing but the purpose *)
+Lemma with_purpose_id : forall s, with_purpose s = s.
+Proof. intros [a st sp dl rt su fa]; reflexivity. Qed.
+
 Lemma as_active_id : forall s, s_active s = true -> as_active s = s.
 Proof. intros [a st sp dl rt su fa]; simpl; intros ->; reflexivity. Qed.
 
@@ -595,6 +599,7 @@ Fixpoint erase (tr : list plabel) : list label :=
   | [] => []
   | PCycle ta tc tx te r :: tr' => Tick ta tc tx te r :: erase tr'
   | PRestart :: tr' => erase tr'
+  | PRepurpose :: tr' => erase tr'
   end.
 
 Definition PR (ps : pstate) (s : dstate) : Prop :=
@@ -628,12 +633,17 @@ Lemma prun_sim : forall e c tr ps s ps', PR ps s -> prun e c ps tr = Some ps' ->
 Proof.
   intros e c tr; induction tr as [|l tr IH]; intros ps s ps' HR Hp; simpl in Hp.
   - injection Hp as <-. exists s; split; [reflexivity | exact HR].
-  - destruct l as [ta tc tx te r |].
+  - destruct l as [ta tc tx te r | |].
     + destruct (pstep e c ps (PCycle ta tc tx te r)) as [ps1|] eqn:E; [| discriminate].
       destruct (pstep_sim _ _ _ _ _ _ _ _ _ _ HR E) as [s1 [Hs HR1]].
       destruct (IH ps1 s1 ps' HR1 Hp) as [s' [Hr HR']].
       exists s'. split; [| exact HR']. cbn [erase run]. rewrite Hs. exact Hr.
     + simpl in Hp. cbn [erase]. apply (IH ps s ps' HR Hp).
+    + cbn [prun pstep] in Hp. cbn [erase]. refine (IH _ s ps' _ Hp).
+      destruct HR as [Hck [Hlg [Hpast [Hact [Hcl Hst]]]]]. unfold PR; simpl. repeat split; auto.
+      intros Hnc. rewrite (Hst Hnc). cbn [option_map].
+      pose proof (state_for_roundtrip (p_clock ps) _ Hact) as E. unfold state_for in E.
+      rewrite E, with_purpose_id. reflexivity.
 Qed.
 
 (* the first cycle creates the state from scratch at its own start *)
@@ -658,12 +668,13 @@ Lemma persisted_ok : forall e c tr t0 ps, prun e c (pinit t0) tr = Some ps -> li
 Proof.
   intros e c tr; induction tr as [|l tr IH]; intros t0 ps Hp; simpl in Hp.
   - injection Hp as <-. simpl. apply (inv_lifetime e c (init t0)). apply inv_init.
-  - destruct l as [ta tc tx te r |].
+  - destruct l as [ta tc tx te r | |].
     + destruct (pstep e c (pinit t0) (PCycle ta tc tx te r)) as [ps1|] eqn:E; [| discriminate].
       destruct (pstep_first _ _ _ _ _ _ _ _ _ E) as [s1 [Hs [HR1 _]]].
       destruct (prun_sim _ _ _ _ _ _ HR1 Hp) as [s' [Hr HR']].
       destruct HR' as [_ [Hlg _]]. rewrite Hlg. apply inv_lifetime.
       eapply run_inv; [| exact Hr]. eapply step_inv; [apply inv_init | exact Hs].
+    + simpl in Hp. apply (IH t0 ps Hp).
     + simpl in Hp. apply (IH t0 ps Hp).
 Qed.
 
@@ -678,10 +689,66 @@ Fixpoint no_restarts (tr : list plabel) : list plabel :=
 Lemma restarts_invisible : forall e c tr ps, prun e c ps tr = prun e c ps (no_restarts tr).
 Proof.
   intros e c tr; induction tr as [|l tr IH]; intros ps; [reflexivity |].
-  destruct l as [ta tc tx te r |]; cbn [prun no_restarts].
+  destruct l as [ta tc tx te r | |]; cbn [prun no_restarts].
   - destruct (pstep e c ps (PCycle ta tc tx te r)); [apply IH | reflexivity].
   - cbn [pstep]. apply IH.
+  - destruct (pstep e c ps PRepurpose); [apply IH | reflexivity].
 Qed.
+
+(* ... and so are changes of the cause: a re-purposed record keeps delayed / retries / started / success / failure,
+   so dropping the re-purposings from any trace changes nothing either *)
+Fixpoint no_repurposings (tr : list plabel) : list plabel :=
+  match tr with
+  | [] => []
+  | PRepurpose :: tr' => no_repurposings tr'
+  | l :: tr' => l :: no_repurposings tr'
+  end.
+
+Lemma repurpose_keeps : forall s,
+  s_delayed (with_purpose s) = s_delayed s /\ s_retries (with_purpose s) = s_retries s /\
+  s_started (with_purpose s) = s_started s /\ s_stopped (with_purpose s) = s_stopped s /\
+  s_success (with_purpose s) = s_success s /\ s_failure (with_purpose s) = s_failure s /\
+  s_active (with_purpose s) = s_active s /\
+  (forall t, awakened t (with_purpose s) = awakened t s) /\ (forall t, sleeping t (with_purpose s) = sleeping t s).
+Proof. intros s. rewrite with_purpose_id. repeat split; reflexivity. Qed.
+
+Definition WF (ps : pstate) : Prop :=
+  p_stored ps = None \/ exists hs, p_stored ps = Some (for_storage hs) /\ s_active hs = true.
+
+Lemma repurpose_noop : forall e c ps, WF ps -> pstep e c ps PRepurpose = Some ps.
+Proof.
+  intros e c ps [H | [hs [H Ha]]]; cbn [pstep]; rewrite H; cbn [option_map].
+  - destruct ps; simpl in *; subst; reflexivity.
+  - cbn [option_map]. rewrite (state_for_roundtrip (p_clock ps) _ Ha), with_purpose_id. destruct ps; simpl in *; subst; reflexivity.
+Qed.
+
+Lemma pstep_wf : forall e c ps l ps', WF ps -> pstep e c ps l = Some ps' -> WF ps'.
+Proof.
+  intros e c ps l ps' Hw Hs. destruct l as [ta tc tx te r | |].
+  - unfold pstep in Hs. destruct (p_closed ps); [discriminate |].
+    destruct ((p_clock ps <=? ta) && (ta <=? tc) && (tc <=? tx) && (tx <=? te)); [| discriminate].
+    assert (Ha : s_active (state_for ta (p_stored ps)) = true) by (destruct (p_stored ps); reflexivity).
+    destruct (awakened ta (state_for ta (p_stored ps))); injection Hs as <-; unfold WF; simpl.
+    + match goal with |- context [if ?b then None else _] => destruct b end;
+        [left; reflexivity | right; eexists; split; [reflexivity | exact Ha]].
+    + right; eexists; split; [reflexivity | exact Ha].
+  - cbn [pstep] in Hs. injection Hs as <-. exact Hw.
+  - rewrite (repurpose_noop e c ps Hw) in Hs. injection Hs as <-. exact Hw.
+Qed.
+
+Lemma repurposings_invisible_from : forall e c tr ps, WF ps -> prun e c ps tr = prun e c ps (no_repurposings tr).
+Proof.
+  intros e c tr; induction tr as [|l tr IH]; intros ps Hw; [reflexivity |].
+  destruct l as [ta tc tx te r | |]; cbn [prun no_repurposings].
+  - destruct (pstep e c ps (PCycle ta tc tx te r)) as [ps1|] eqn:E; [| reflexivity].
+    apply IH. eapply pstep_wf; eauto.
+  - cbn [pstep]. apply IH. exact Hw.
+  - rewrite (repurpose_noop e c ps Hw). apply IH. exact Hw.
+Qed.
+
+(* for every history of cycles, restarts and changes of the cause: the changes of the cause are invisible *)
+Lemma repurposings_invisible : forall e c tr t0, prun e c (pinit t0) tr = prun e c (pinit t0) (no_repurposings tr).
+Proof. intros. apply repurposings_invisible_from. left; reflexivity. Qed.
 
 (* non-vacuity: a run that exercises retry, delay, look-ahead and a restart *)
 Example persisted_example :
